@@ -740,7 +740,8 @@ def kernel_args(draw, name):
 INT_OK = ["Norm", "Norm6", "Normalize", "VecToso3", "so3ToVec", "VecTose3", "se3ToVec", "RotInv", "SafeTrace",
           "SafeCopy", "MatMul", "SafeDot", "TrVec", "AngleMod", "SafeClip", "ad", "ScrewToAxis", "AxisAng3",
           "AxisAng6", "RpToTrans", "EulerStep", "JointTrajectory", "FKinSpace", "FKinBody", "JacobianSpace",
-          "JacobianBody", "Adjoint", "TransInv", "TransToRp", "MatrixExp3", "MatrixExp6"]
+          "JacobianBody", "Adjoint", "TransInv", "TransToRp", "MatrixExp3", "MatrixExp6",
+          "CubicTimeScaling", "QuinticTimeScaling"]
 
 KERNEL_NAMES = ["NearZero", "Normalize", "AngleMod", "Norm", "Norm6", "RotInv", "VecToso3", "so3ToVec", "AxisAng3",
                 "MatrixExp3", "SafeTrace", "SafeClip", "MatrixLog3", "RpToTrans", "TransToRp", "TransInv",
@@ -759,6 +760,9 @@ def _intify(a):
     return a
 
 
+_INT_TF = st.sampled_from([1, 2, 5, 12, 1000, 8000, 60000, 250000, 3000000])
+
+
 @st.composite
 def kernel_cases(draw):
     name = draw(st.sampled_from(KERNEL_NAMES))
@@ -775,8 +779,13 @@ def kernel_cases(draw):
         if name in ("Normalize", "AxisAng3", "AxisAng6") and not np.any(args[0]):
             args[0][0] = 1.0
         if name in ("JointTrajectory",):
-            args[2] = max(1.0, args[2])
+            # the duration as a whole number of time units (seconds ... microseconds): a Python int
+            args[2] = int(draw(_INT_TF))
             lays[2] = "C"
+        if name in ("CubicTimeScaling", "QuinticTimeScaling"):
+            Tf = int(draw(_INT_TF))
+            args = [Tf, int(draw(st.integers(0, Tf)))]
+            lays = ["C", "C"]
         if name in ("EulerStep",):
             lays[3] = "C"
             args[3] = 0.5
